@@ -49,8 +49,8 @@ def generate(rng, seed, index, tier):
         if rng.random() < 0.5:
             kw["scaling_type"] = "Custom"  # weights are per problem: filled in per solver below
         kw["iteration_limit"] = int(rng.choice([3, 8, 25, 60]))
-        if rng.random() < 0.3:
-            kw["time_limit"] = 1.0
+        if rng.random() < 0.35:
+            kw["time_limit"] = float(rng.choice([1.0, 50.0, 400.0]))
         if rng.random() < 0.15:
             kw["lamb_max"] = float(rng.choice([8.0, 64.0, 1e3]))
         if rng.random() < 0.5:
